@@ -1,6 +1,8 @@
 import FancyModel.Proofs.C03d
 import FancyModel.Proofs.C05e
 import FancyModel.Lemmas.VMBytesAgree
+import FancyModel.Lemmas.ParseHiOK
+import FancyModel.Proofs.C06d
 /-!
 # C01f — the capstone chain: analyze.rs, compile.rs and `vm::run`, as translated, compute the
 reference semantics (stage S3)
@@ -91,11 +93,12 @@ theorem C01_translated_chain_s3 (tree : Expr) (backrefs : List Nat) (b : Built) 
   exact C01_bytes_vm_correct_s3 c hceq hU tree backrefs b prog hb hk hs3 hws hz (len_lt_unset c hU) hpos limit fuel
 
 include hceq hU in
-/-- **the same from the pattern string** (hypotheses of `C01_pipeline_s3`; the parser is the model's) -/
+/-- **the same from the pattern string** (hypotheses of `C01_pipeline_s3`; the parser is the model's). The domain
+    conditions `analyzable` and `hiOK` of the translated analyzer/compiler hold of every parsed tree
+    (`Parse.parse_analyzable`, `Parse.parse_hiOK`, Lemmas/ParseHiOK.lean); what remains is the size bound `hfit`. -/
 theorem C01_translated_chain_pipeline (isAlnum : Char → Bool) (cs : List Char) (casei : Bool) (t : Parse.Tree)
     (b : Built) (prog : Prog) (hp : Parse.parseStr isAlnum cs casei = .ok t) (hb : build t.expr t.backrefs = .ok b)
     (hk : b.kind = .fancy prog) (hst : s3Pattern t b = true) (hpos : c.pos ≤ c.len)
-    (ha : analyzable t.expr = true) (hh : hiOK t.expr = true)
     (hfit : codeBound (renumber (wrapTree t.expr) 0).1 < UNSET) (limit fuel : Nat) :
     ∃ prog', genFront (fun g => t.backrefs.contains g) (renumber (wrapTree t.expr) 0).1 = .ok prog' ∧
       ((genRun (BCtx.ofCtx c) prog' ⟨limit, maxStackDefault⟩ fuel).1 = .outOfFuel ∨
@@ -108,7 +111,7 @@ theorem C01_translated_chain_pipeline (isAlnum : Char → Bool) (cs : List Char)
   simp only [s3Pattern, Bool.and_eq_true] at hst
   exact C01_translated_chain_s3 c hceq hU t.expr t.backrefs b prog hb hk hst.1
     (Parse.parse_build_wellShaped isAlnum cs casei t b hp hb).2 (build_raw_noBareEndZ t.expr t.backrefs b hb hst.2)
-    hpos ha hh hfit limit fuel
+    hpos (Parse.parse_analyzable isAlnum cs casei t hp) (Parse.parse_hiOK isAlnum cs casei t hp) hfit limit fuel
 
 include hceq hU in
 /-- **C05, the translated chain: no panic** -/
@@ -153,6 +156,60 @@ theorem C07_translated_chain_terminates (tree : Expr) (backrefs : List Nat) (b :
   | errStack => rw [hr] at h; cases h
   | panic s => rw [hr] at h; cases h
 
+/-! ### from the source text of the parser too -/
+
+include hceq hU in
+/-- **C01, the whole translated chain**: parse.rs (`GenParse.parse_with_case_insensitive`), analyze.rs, compile.rs
+    and `vm::run`, all as translated, on a stage-S3 pattern string compute the reference search -/
+theorem C01_translated_chain_source (isAlnum : Char → Bool) (cs : List Char) (casei : Bool) (t : Parse.Tree)
+    (b : Built) (prog : Prog)
+    (hp : GenParse.parse_with_case_insensitive isAlnum (Parse.bytesOf cs) casei = .ok t)
+    (hb : build t.expr t.backrefs = .ok b)
+    (hk : b.kind = .fancy prog) (hst : s3Pattern t b = true) (hpos : c.pos ≤ c.len)
+    (hfit : codeBound (renumber (wrapTree t.expr) 0).1 < UNSET) (limit fuel : Nat) :
+    ∃ prog', genFront (fun g => t.backrefs.contains g) (renumber (wrapTree t.expr) 0).1 = .ok prog' ∧
+      ((genRun (BCtx.ofCtx c) prog' ⟨limit, maxStackDefault⟩ fuel).1 = .outOfFuel ∨
+       (genRun (BCtx.ofCtx c) prog' ⟨limit, maxStackDefault⟩ fuel).1 = .errStack ∨
+       (genRun (BCtx.ofCtx c) prog' ⟨limit, maxStackDefault⟩ fuel).1 = .errLimit ∨
+       match refSearch c b.raw b.nGroups with
+       | some f => ∃ savesB, (genRun (BCtx.ofCtx c) prog' ⟨limit, maxStackDefault⟩ fuel).1 = .matched savesB ∧
+           (viewSlots savesB).take (b.nGroups * 2) = f.slots.map (Option.map (offOf c.text))
+       | none => (genRun (BCtx.ofCtx c) prog' ⟨limit, maxStackDefault⟩ fuel).1 = .noMatch) :=
+  C01_translated_chain_pipeline c hceq hU isAlnum cs casei t b prog
+    (by rw [← GenParse.Descent.C06_parse_translated_str]; exact hp) hb hk hst hpos hfit limit fuel
+
+include hceq hU in
+theorem C05_translated_chain_source_no_panic (isAlnum : Char → Bool) (cs : List Char) (casei : Bool) (t : Parse.Tree)
+    (b : Built) (prog : Prog)
+    (hp : GenParse.parse_with_case_insensitive isAlnum (Parse.bytesOf cs) casei = .ok t)
+    (hb : build t.expr t.backrefs = .ok b)
+    (hk : b.kind = .fancy prog) (hst : s3Pattern t b = true) (hpos : c.pos ≤ c.len)
+    (hfit : codeBound (renumber (wrapTree t.expr) 0).1 < UNSET) (limit fuel : Nat) :
+    ∃ prog', genFront (fun g => t.backrefs.contains g) (renumber (wrapTree t.expr) 0).1 = .ok prog' ∧
+      ∀ site, (genRun (BCtx.ofCtx c) prog' ⟨limit, maxStackDefault⟩ fuel).1 ≠ .panic site := by
+  have hp' : Parse.parseStr isAlnum cs casei = .ok t := by
+    rw [← GenParse.Descent.C06_parse_translated_str]; exact hp
+  simp only [s3Pattern, Bool.and_eq_true] at hst
+  exact C05_translated_chain_no_panic c hceq hU t.expr t.backrefs b prog hb hk hst.1
+    (Parse.parse_build_wellShaped isAlnum cs casei t b hp' hb).2 (build_raw_noBareEndZ t.expr t.backrefs b hb hst.2)
+    hpos (Parse.parse_analyzable isAlnum cs casei t hp') (Parse.parse_hiOK isAlnum cs casei t hp') hfit limit fuel
+
+include hceq hU in
+theorem C07_translated_chain_source_terminates (isAlnum : Char → Bool) (cs : List Char) (casei : Bool)
+    (t : Parse.Tree) (b : Built) (prog : Prog)
+    (hp : GenParse.parse_with_case_insensitive isAlnum (Parse.bytesOf cs) casei = .ok t)
+    (hb : build t.expr t.backrefs = .ok b)
+    (hk : b.kind = .fancy prog) (hst : s3Pattern t b = true) (hpos : c.pos ≤ c.len)
+    (hfit : codeBound (renumber (wrapTree t.expr) 0).1 < UNSET) (limit : Nat) :
+    ∃ prog', genFront (fun g => t.backrefs.contains g) (renumber (wrapTree t.expr) 0).1 = .ok prog' ∧
+      ∃ N, ∀ fuel, N ≤ fuel → (genRun (BCtx.ofCtx c) prog' ⟨limit, maxStackDefault⟩ fuel).1 ≠ .outOfFuel := by
+  have hp' : Parse.parseStr isAlnum cs casei = .ok t := by
+    rw [← GenParse.Descent.C06_parse_translated_str]; exact hp
+  simp only [s3Pattern, Bool.and_eq_true] at hst
+  exact C07_translated_chain_terminates c hceq hU t.expr t.backrefs b prog hb hk hst.1
+    (Parse.parse_build_wellShaped isAlnum cs casei t b hp' hb).2 (build_raw_noBareEndZ t.expr t.backrefs b hb hst.2)
+    hpos (Parse.parse_analyzable isAlnum cs casei t hp') (Parse.parse_hiOK isAlnum cs casei t hp') hfit limit
+
 end Chain
 
 /-! ### Non-vacuity: the pattern string `a(?=b)` (VM path, stage S3), every text
@@ -175,10 +232,18 @@ example (c : Ctx) (hceq : ∀ a b, c.ceq false a b = (a == b)) (hU : (bytesOfCha
   obtain ⟨b, prog, hb, hk, hst, _, _⟩ := Api.exLook_built
   obtain ⟨prog', h1, h2⟩ := C01_translated_chain_pipeline c hceq hU _ _ _ ⟨Api.exLook, [], []⟩ b prog
     Api.exLook_parse hb hk hst hpos
-    (by simp [Api.exLook, analyzable, analyzableAll])
-    (by simp [Api.exLook, hiOK, hiOKAll])
     (by simp [Api.exLook, wrapTree, renumber, renumberList, codeBound, codeBoundList, UNSET])
     limit fuel
   exact ⟨b, prog', hb, h1, h2⟩
+
+/-! ### `{n,18446744073709551615}`: the parser writes "no upper bound" (`hiOf`), as the crate does
+
+`hiOK` excludes `some usize::MAX`; a tree with it exists, but no pattern string produces it:
+`a{1,18446744073709551615}(?=b)` parses to `a{1,}(?=b)` (and the crate compiles it as `a+`: the real
+program is `… save:0 lit:61 split:4:6 save:2 lit:62 restore:2 save:1 end`, the same as the model's). -/
+
+example : hiOK (.repeat (.literal ['a'] false) 1 (some UNSET) true) = false := by simp [hiOK]
+
+example : Parse.hiOf Parse.usizeMax = none ∧ Parse.hiOf 7 = some 7 := by decide
 
 end Fancy
